@@ -12,19 +12,22 @@ ASSUMPTIONS = ["lex->act contract: token types as in the item forms (C02.lex lem
                "any number / order of items beyond two: LR step lemma back to [0,expr] (paper argument until the LR engine lands)"]
 OUTSIDE = ["constraint column names spelled differently (quoting / case) from the column definition", "DEFERRABLE; MSSQL clustered PK / WITH",
            "more than two table-level items in one obligation; ON UPDATE SET NULL (two-word actions)"]
-NI = 18
-NAMESETS = ["a,b,c", "id,Id,ID", '"n",n,[n]', "x,`x`,X"]
+NI = 20
+NAMESETS = ["a,b,c", "id,Id,ID", '"n",n,[n]', "x,`x`,X", "asc,desc,term"]
 
 
 def obligations(tier):
     t = 300 if tier == "quick" else 900
     obs = []
     for ns, nst in enumerate(NAMESETS):
-        items = range(NI) if (ns == 0 or tier == "thorough") else [2, 4, 9, 10, 12, 17]
+        items = range(NI) if (ns == 0 or tier == "thorough") else ([1, 2, 16] if ns == 4 else [2, 4, 9, 10, 12, 17])
         for i in items:
             obs.append(Ob(f"C02.drv/names={nst}/item1={i}", "drv", "c_items", {"VF_I1": i, "VF_NAMES": ns}, t, FN_DRV,
                           f"columns named {nst} (first optionally inline PRIMARY KEY, second optionally inline CONSTRAINT g REFERENCES r (z), third optionally inline UNIQUE - "
                           f"all symbolic) + table-level item #{i} + a second item, any other of the 18 (symbolic)"))
+    for i in ([18, 5] if tier == "quick" else range(NI)):
+        obs.append(Ob(f"C02.drv/normalize_names/item1={i}", "drv", "c_items", {"VF_I1": i, "VF_NAMES": 0, "VF_NORM": 1}, t, FN_DRV,
+                      f"normalize_names=True: item #{i} + any second item; a constraint named `key` keeps its name without the delimiters"))
     obs += lex_obs("C02", "c_kw", ["col_later", "col_after_sized"], tier, "lex")
     obs += lex_obs("C02", "c_name", ["pk_list_first", "pk_list_later", "uniq_list_first", "fk_list_first", "ref_list_first"], tier, "lexname")
     return obs
